@@ -50,6 +50,7 @@ namespace ps {
 using namespace ck;
 
 // ---------------------------------------------------------------------------------------------- observation
+struct BaseCoin { COutPoint op; CAmount value; int height; };
 struct PoolTx {
     CTransactionRef tx;
     CAmount fee{0};   // base fee as reported by the pool
@@ -69,6 +70,7 @@ struct Snap {
     int64_t now{0};
     size_t usage{0};
     std::vector<std::set<size_t>> parents, children;
+    mutable std::shared_ptr<std::vector<struct BaseCoin>> free_cache; // filled by Sim::FreeCoins
 
     bool has(const Txid& t) const { return idx.count(t) > 0; }
     std::set<size_t> Desc(size_t i) const
@@ -218,6 +220,7 @@ struct Opts {
     std::vector<int> pad_sizes{};        // CP sizes
     int max_idx{3};                      // pool-indexed events address only the first max_idx non-filler pool txs (txid order)
     int max_inval{2}, max_time{1};
+    bool prio_minus{true}, prio_next{true}; // P:<i>:- and P:n:+ enabled
     bool test_before_submit{false};      // C28: run test_accept first, in the same transition
     int depth_quick{3}, depth_thorough{4};
     int split{1};
@@ -257,8 +260,6 @@ struct Monitor {
 
 // outcome classes (vx::ForkShared::outcome_classes) maintained by the engine; 10..15 are free for monitors
 enum Outcome { O_ACCEPT = 0, O_REJECT, O_REPLACED, O_BLOCK_WITH_POOLTX, O_REORG_READD, O_EXPIRED, O_TRIMMED, O_PKG_ACCEPT, O_BLOCK_CONFLICT, O_REORG_EVICT };
-
-struct BaseCoin { COutPoint op; CAmount value; int height; };
 
 struct Sim {
     Node& n;
@@ -364,6 +365,7 @@ struct Sim {
     // base coins that are mature for the next block, unspent in the chain and not spent by a pool tx
     std::vector<BaseCoin> FreeCoins(const Snap& s)
     {
+        if (s.free_cache) return *s.free_cache;
         std::vector<BaseCoin> v;
         for (auto& c : coins) {
             if (s.height + 1 - c.height < COINBASE_MATURITY) continue;
@@ -371,6 +373,7 @@ struct Sim {
             if (pool().isSpent(c.op)) continue;
             v.push_back(c);
         }
+        s.free_cache = std::make_shared<std::vector<BaseCoin>>(v);
         return v;
     }
 
@@ -404,7 +407,6 @@ struct Sim {
 
     // ------------------------------------------------------------------ tx builder
     // `nout` OP_TRUE outputs sharing (sum(in_values) - fee); optional extras
-    struct MkX { int32_t version{2}; uint32_t locktime{0}; uint32_t sequence{0xffffffff}; bool dust_out{false}; int pad_bytes{-1}; };
     CTransactionRef Mk(const std::vector<COutPoint>& ins, const std::vector<CAmount>& in_values, int nout, CAmount fee, int32_t version = 2, uint32_t locktime = 0, uint32_t sequence = 0xffffffff, bool dust_out = false, int pad_bytes = -1)
     {
         CAmount total = 0;
@@ -709,14 +711,14 @@ struct Sim {
             if (o.has("SB")) for (char th : o.thr) cand.push_back("SB:" + I + ":" + S(th));
             if (o.has("PR")) for (char th : o.thr) cand.push_back("PR:" + I + ":" + S(th));
             if (o.has("MC")) cand.push_back("MC:" + I);
-            if (o.has("P")) { cand.push_back("P:" + I + ":+"); cand.push_back("P:" + I + ":-"); }
+            if (o.has("P")) { cand.push_back("P:" + I + ":+"); if (o.prio_minus) cand.push_back("P:" + I + ":-"); }
         }
         if (o.has("J")) for (char f : o.child_fees) cand.push_back("J:" + S(f));
         if (o.has("PK")) for (char pf : o.pk_parent) for (char cf : o.pk_child) cand.push_back("PK:2:" + S(pf) + ":" + S(cf));
         if (o.has("PK3")) for (char pf : o.pk_parent) for (char cf : o.pk_child) cand.push_back("PK:3:" + S(pf) + ":" + S(cf));
         if (o.has("PE")) { for (const char* k : {"b", "m", "d"}) cand.push_back(std::string("PE:") + k + ":z:k"); cand.push_back("PE:b:m:k"); }
         if (o.has("D")) { cand.push_back("D:z"); cand.push_back("D:h"); }
-        if (o.has("P")) cand.push_back("P:n:+");
+        if (o.has("P") && o.prio_next) cand.push_back("P:n:+");
         if (o.has("M")) { cand.push_back("M:0"); cand.push_back("M:1"); cand.push_back("M:a"); }
         if (o.has("I")) cand.push_back("I");
         if (o.has("X")) cand.push_back("X");
@@ -869,6 +871,8 @@ inline NodeOpts MakeNodeOpts(const Opts& o)
     NodeOpts no;
     Opts oc = o;
     no.mempool_check_ratio = 1;
+    // zero-size signature / script-execution caches: every script check really runs, and the forked process image stays small
+    no.min_validation_cache = true;
     no.mempool_tweak = [oc](CTxMemPool::Options& mpo) {
         mpo.check_ratio = 1;
         mpo.max_size_bytes = oc.max_size_bytes;
